@@ -6,6 +6,7 @@ import (
 	"fmt"
 	"math/rand"
 	"sort"
+	"strings"
 
 	"github.com/onheap/eval"
 )
@@ -70,7 +71,12 @@ func (l c17List) value() interface{} {
 	return l.ints
 }
 
-func elemStr(v int64) string { return fmt.Sprintf("e%d", v) }
+// elemStr: the string element standing for value v; its length depends on v only (so equal values give equal
+// strings in both lists): short, around 64 bytes, and long
+func elemStr(v int64) string {
+	pad := []int{0, 0, 1, 55, 60, 61, 62, 70, 300}[uint64(v)%9]
+	return fmt.Sprintf("e%d", v) + strings.Repeat("x", pad)
+}
 
 // mkList: n elements drawn from distinct base values (offset), ordered by mode; dup adds duplicates.
 func mkList(r *rand.Rand, n int, base int64, isS bool, order int, dup bool) c17List {
